@@ -262,8 +262,12 @@ def _scoped_nodes(root, outside, hidden=frozenset()):
             yield x
 
 
-def py_effects(fi, comps=False):
+def py_effects(fi, comps=False, composite=False):
     """label -> dict(reads, writes, dels, ftarget, body) by Python's rules.
+    composite: a store / augmented store / del through a composite target (`x[0] = v`, `del x.k[a]`) ends the binding
+    of that LOCATION and of nothing else: the location, named by its source text (never an identifier), is added to
+    `dels`, i.e. to what the node may kill.  It is not a variable: no read / write of it is ever judged, and the
+    variable that holds the object (`x`) is only READ by such a node.
     reads: names the node may read; writes: names every completed instance binds; dels: deletes;
     ftarget: (for header) names bound when and only when an iteration starts; body: entry label of the loop body.
     comps: accept comprehensions / generator expressions (their free reads -- in the element, the iterables and the
@@ -288,8 +292,12 @@ def py_effects(fi, comps=False):
             if kind == 'iter':
                 f = parents[id(node)]
                 for t in ast.walk(f.target):
-                    if isinstance(t, ast.Name):
-                        e['ftarget'].add(t.id)
+                    if isinstance(t, ast.Name) and isinstance(t.ctx, ast.Store):
+                        e['ftarget'].add(t.id)      # (a composite target `for x[a, 1] in ...` reads x and a, binds nothing)
+                    elif isinstance(t, ast.Name):
+                        e['reads'].add(t.id)
+                    elif composite and isinstance(t, (ast.Subscript, ast.Attribute)) and not isinstance(t.ctx, ast.Load):
+                        e['dels'].add(ast.unparse(t))
                 e['body'] = entry_label(sk, f.body[0])
             for r in roots:
                 for n, hidden in _scoped_nodes(r, outside):
@@ -303,6 +311,8 @@ def py_effects(fi, comps=False):
                         else:
                             e['dels'].add(n.id)
                             e['reads'].add(n.id)
+                    elif composite and isinstance(n, (ast.Subscript, ast.Attribute)) and not isinstance(n.ctx, ast.Load):
+                        e['dels'].add(ast.unparse(n))
                     elif isinstance(n, (ast.FunctionDef, ast.ClassDef)):
                         e['writes'].add(n.name)
                     elif isinstance(n, ast.alias):
@@ -559,7 +569,9 @@ def _for_headers(fi):
     out = {}
     for s in ast.walk(fi.fn):
         if isinstance(s, ast.For) and id(s.iter) in fi.sk.label:
-            out[fi.sk.label[id(s.iter)]] = (set(t.id for t in ast.walk(s.target) if isinstance(t, ast.Name)),
+            # (only the names the header BINDS: in `for x[a, 1] in ...` x and a are read, the object x holds is mutated)
+            out[fi.sk.label[id(s.iter)]] = (set(t.id for t in ast.walk(s.target)
+                                                if isinstance(t, ast.Name) and isinstance(t.ctx, ast.Store)),
                                             entry_label(fi.sk, s.body[0]))
     return out
 
@@ -1730,6 +1742,152 @@ def gen_composite_del_function(rnd):
     return '\n'.join(L) + '\n'
 
 
+def gen_composite_target_function(rnd):
+    """IN-PLACE mutation of the object a local variable holds, through a composite target of every shape: subscripts
+    with a slice (`x[0:1]`, `x[a:b]`, `x[:]`, `x[::2]`), a tuple (`x[a, 1]`, `x[a, b, c]`), a constant / name / unary /
+    binary / call index, a nested subscript (`x[0][a:b]`) or an attribute in between (`x.k[0:1]`, `x[1].k`); as the
+    target of `=`, of a chained / unpacking / starred assignment, of an augmented assignment, of `del` (one or several
+    targets), of a `for` header and of `with ... as`.  None of them binds or unbinds the variable: the statement that
+    bound the owner before is still the producer of the value read afterwards, and the owner is still bound at the
+    entry of the compound statements that follow.  The mutation sits at top level, in a branch or in a loop (optionally
+    with a re-binding of the owner next to it); the owner may have two reaching definitions; afterwards it is read in
+    ordinary statements, in tests, and conditionally re-bound in an if / while / for / try."""
+    k = [0]
+
+    def key():
+        k[0] += 1
+        return k[0]
+
+    def t():
+        return 'T(%d)' % key()
+
+    o, x, y = rnd.sample(_progs.VARS, 3)
+    kind = rnd.choice(['list', 'list', 'dict', 'dict', 'nest', 'attr'])
+
+    def ctor():
+        if kind == 'list':
+            return ['%s = [%s]' % (o, ', '.join(t() for _ in range(8)))]
+        if kind == 'dict':
+            return ["%s = {(a, 1): %s, (a, b): %s, 'k': %s, 7: %s, a: %s}" % (o, t(), t(), t(), t(), t())]
+        if kind == 'nest':
+            return ["%s = [[%s], {(a, 1): %s, (a, b): %s, 'k': %s, 7: %s, a: %s}, CM(%d)]"
+                    % (o, ', '.join(t() for _ in range(8)), t(), t(), t(), t(), t(), key())]
+        return ['%s = CM(%d)' % (o, key()), '%s.k = [%s]' % (o, ', '.join(t() for _ in range(8))),
+                "%s.m = {(a, 1): %s, (a, b): %s, 'k': %s, 7: %s, a: %s}" % (o, t(), t(), t(), t(), t())]
+    lst = {'list': o, 'nest': '%s[0]' % o, 'attr': '%s.k' % o}.get(kind)        # an lvalue holding a list
+    dct = {'dict': o, 'nest': '%s[1]' % o, 'attr': '%s.m' % o}.get(kind)        # an lvalue holding a dict
+    obj = {'nest': '%s[2]' % o, 'attr': o}.get(kind)                            # an lvalue holding an object
+    SLICES = ['0:1', 'a:b', ':a', 'b:', '-1:', '0:b:1', 'a:a', ':', 'a - 1:b']
+    INDICES = ['0', 'a', '-1', 'a - 1', '-a']
+    KEYS = ['a, 1', 'a, b', '(a, 1)', "'k'", '7', 'a', 'a, b, c', 'a + 6', '...', '(a, b), c']
+
+    def mutation(in_loop):
+        """-> lines of one mutating statement (possibly with a statement that makes it safe in front)"""
+        forms = []
+        if lst:
+            forms += ['ls', 'ls', 'li', 'la', 'lai', 'ld', 'ld', 'ldi', 'lu', 'lstar', 'lchain', 'lfor', 'ldd']
+        if dct:
+            forms += ['ds', 'ds', 'da', 'dd', 'dd', 'du', 'dchain', 'dfor', 'dwith', 'ddd']
+        if obj:
+            forms += ['as', 'ad']
+        f = rnd.choice(forms)
+        if f == 'ls':
+            sl = rnd.choice(SLICES)
+            n = 6 if sl == ':' else 2 if sl in ('0:b:1', 'b:') else rnd.randint(1, 2)
+            return ['%s[%s] = [%s]' % (lst, sl, ', '.join(t() for _ in range(n)))]
+        if f == 'li':
+            return ['%s[%s] = %s' % (lst, rnd.choice(INDICES), t())]
+        if f == 'la':
+            return ['%s[%s] %s' % (lst, rnd.choice(SLICES[:6]), rnd.choice(['+= [%s]' % t(), '*= 1']))]
+        if f == 'lai':
+            return ['%s[%s] %s= %s' % (lst, rnd.choice(INDICES), rnd.choice('+-'), t())]
+        if f == 'ld':
+            return ['del %s[%s]' % (lst, rnd.choice(['0:1', 'a:b', ':a', '-1:', '::4', 'a:a', 'a - 1:a']))]
+        if f == 'ldi':
+            return ['del %s[%s]' % (lst, rnd.choice(INDICES))]
+        if f == 'ldd':
+            return ['del %s[0:1], %s[%s]' % (lst, lst, rnd.choice(['a', '-1:', 'a:b']))]
+        if f == 'lu':
+            return [rnd.choice(['%s[0:1], %s = [%s], %s' % (lst, y, t(), t()), '%s, %s[a:b] = %s, [%s]' % (y, lst, t(), t()),
+                                '[%s[0], %s[b:]] = %s, [%s, %s]' % (lst, lst, t(), t(), t())])]
+        if f == 'lstar':
+            return ['*%s[0:b], %s = %s, %s, %s' % (lst, y, t(), t(), t())]
+        if f == 'lchain':
+            return ['%s = %s[%s] = [%s]' % (y, lst, rnd.choice(SLICES[:5]), t())]
+        if f == 'lfor':
+            return ['for %s[%s] in L(%d):' % (lst, rnd.choice(INDICES[:3]), key()), '    %s = T(%d, %s)' % (y, key(), o)]
+        if f == 'ds':
+            return ['%s[%s] = %s' % (dct, rnd.choice(KEYS), t())]
+        if f == 'du':
+            return ['%s[%s], %s = %s, %s' % (dct, rnd.choice(KEYS), y, t(), t())]
+        if f == 'dchain':
+            return ['%s = %s[%s] = %s' % (y, dct, rnd.choice(KEYS), t())]
+        if f == 'dfor':
+            return ['for %s[%s] in L(%d):' % (dct, rnd.choice(KEYS), key()), '    %s = T(%d, %s)' % (y, key(), o)]
+        if f == 'dwith':
+            return ['with CM(%d) as %s[%s]:' % (key(), dct, rnd.choice(KEYS)), '    %s = T(%d, %s)' % (y, key(), o)]
+        if f in ('da', 'dd', 'ddd'):
+            # the key must exist: store it first (always inside a loop, where the del would be repeated)
+            ky = rnd.choice(KEYS)
+            pre = ['%s[%s] = %s' % (dct, ky, t())]
+            if f == 'da':
+                return pre + ['%s[%s] %s= %s' % (dct, ky, rnd.choice('+-'), t())]
+            if f == 'ddd':
+                val = lambda q: eval('(%s,)' % q, {'a': 1, 'b': 2, 'c': 3})     # noqa: E731  (the arguments of every run)
+                k2 = rnd.choice([q for q in ("'k'", '7', 'a, b') if val(q) != val(ky)])
+                return pre + ['%s[%s] = %s' % (dct, k2, t()), 'del %s[%s], %s[%s]' % (dct, ky, dct, k2)]
+            return pre + ['del %s[%s]' % (dct, ky)]
+        if f == 'as':
+            return ['%s.v = %s' % (obj, t())]
+        return ['%s.v = %s' % (obj, t()), 'del %s.v' % obj]
+
+    L = ['def f(a, b, c):']
+    L += ['    ' + q for q in ctor()]
+    if rnd.random() < 0.35:
+        L.append('    if D(%d):' % key())
+        L += ['        ' + q for q in ctor()]
+    place = rnd.random()
+    ind = '    '
+    rebind = None
+    if place < 0.25:
+        L.append('    for i%d in L(%d):' % (key(), key()))
+        ind = '        '
+    elif place < 0.4:
+        L.append('    while D(%d):' % key())
+        ind = '        '
+    elif place < 0.55:
+        L.append('    if D(%d%s):' % (key(), rnd.choice(['', ', ' + o])))
+        ind = '        '
+    if ind != '    ' and rnd.random() < 0.3:
+        rebind = rnd.choice(['before', 'after'])
+    if rebind == 'before':
+        L += [ind + q for q in ctor()]
+    for _ in range(rnd.choice([1, 1, 2, 3])):
+        L += [ind + q for q in mutation(ind != '    ')]
+        if rnd.random() < 0.3:
+            L.append(ind + '%s = T(%d, %s)' % (x, key(), o))
+    if rebind == 'after':
+        L += [ind + q for q in ctor()]
+    if rnd.random() < 0.5:
+        L.append('    %s = T(%d, %s)' % (x, key(), o))
+    tail = rnd.random()
+    if tail < 0.3:
+        L += ['    if D(%d):' % key(), '        %s = T(%d, %s)' % (o, key(), o)]
+        if rnd.random() < 0.4:
+            L += ['    else:', '        %s = T(%d, %s)' % (x, key(), o)]
+    elif tail < 0.5:
+        L += ['    while D(%d, %s):' % (key(), o), '        %s = T(%d, %s)' % (rnd.choice([o, x]), key(), o)]
+    elif tail < 0.65:
+        L += ['    for i%d in L(%d):' % (key(), key()), '        %s = T(%d, %s)' % (rnd.choice([o, x]), key(), o)]
+    elif tail < 0.85:
+        L += ['    try:', '        %s = T(%d, %s)' % (x, key(), o), '        if D(%d):' % key(), '            raise E0',
+              '    except E0:', '        %s = T(%d, %s)' % (o, key(), o)]
+        if rnd.random() < 0.4:
+            L += ['    finally:', '        %s = T(%d, %s)' % (x, key(), o)]
+    L.append('    return T(%d, %s)' % (key(), o))
+    return '\n'.join(L) + '\n'
+
+
 def gen_jump_through_finally_function(rnd):
     """continue / break inside try ... finally inside the loop being continued / left (also two finally clauses deep):
     the finally clause assigns a variable that the fall-through path overwrites and that is read at the loop head
@@ -2412,7 +2570,7 @@ def lv_case(an, fi, idx):
 def rd_case(an, fi, idx):
     anno = an.anno
     nt = Names()
-    eff = py_effects(fi)
+    eff = py_effects(fi, composite=True)
     rows = []
     names = []
     parents = {}
@@ -2566,7 +2724,12 @@ def check_property(run, kind, generate):
         run.rule += ('; C06 also: a stream of its own with explicit raises that sit deeper in a try body (more statements / '
                      'nesting levels before them) than the fall-through path of the body is long, after assigning a variable the '
                      'fall-through path overwrites or never binds, read in the handlers / finally clause / after the try and '
-                     'at the entry of compound statements there, the try optionally in a loop that re-defines the variables')
+                     'at the entry of compound statements there, the try optionally in a loop that re-defines the variables'
+                     '; + a composite-target stream of its own: in-place mutation of the list / dict / object a local holds through '
+                     'subscripts with slice, tuple, constant, name, unary / binary / call indices, nested subscripts and attributes, as '
+                     'targets of = (plain, chained, unpacking, starred), augmented assignment, del (one / several targets), for headers '
+                     'and with-as, at top level / in a branch / in a loop, the owner read afterwards and conditionally re-bound in '
+                     'if / while / for / try statements')
     if kind == 'lv':
         run.rule += ('; C07 also: every activation of a nested function is judged against that function\'s own graph (value written '
                      'in the activation and read later in it by the function itself, by functions nested in it or by local functions '
@@ -2597,13 +2760,21 @@ def check_property(run, kind, generate):
     rnd_comp = random.Random(run.seed * 7919 + 3000017)
     nested_stats = {}
     comp_stats = {}
-    for it in range(len(corpus) + nprog + nextra + ncomp):
+    # C06 only, likewise: in-place mutations of the object a local holds through composite targets of every shape
+    nsub = (60 if quick else 600) if kind == 'rd' else 0
+    rnd_sub = random.Random(run.seed * 7919 + 4000037)
+    sub_stats = {}
+    for it in range(len(corpus) + nprog + nextra + ncomp + nsub):
         vec_rnd = rnd
         if it < len(corpus):
             sname, src, cdv = ('corpus:' + corpus[it][0], corpus[it][1], corpus[it][2])
         elif it < len(corpus) + nprog:
             sname, src = program_stream(rnd, it)
             cdv = None
+        elif it >= len(corpus) + nprog + nextra + ncomp:
+            sname, src = 'composite-target', gen_composite_target_function(rnd_sub)
+            cdv = None
+            vec_rnd = rnd_sub
         elif it >= len(corpus) + nprog + nextra:
             sname, src = 'comprehension', gen_comprehension_function(rnd_comp)
             cdv = None
@@ -2634,6 +2805,13 @@ def check_property(run, kind, generate):
                 if isinstance(x, COMPS):
                     comp_stats[type(x).__name__] = comp_stats.get(type(x).__name__, 0) + 1
                     comp_stats['filters'] = comp_stats.get('filters', 0) + sum(len(g.ifs) for g in x.generators)
+        if sname == 'composite-target':
+            sub_stats['programs'] = sub_stats.get('programs', 0) + 1
+            for x in ast.walk(an.fn):
+                if isinstance(x, (ast.Subscript, ast.Attribute)) and not isinstance(x.ctx, ast.Load):
+                    shape = 'attribute' if isinstance(x, ast.Attribute) else 'index:' + type(x.slice).__name__
+                    key = '%s %s' % (type(x.ctx).__name__, shape)
+                    sub_stats[key] = sub_stats.get(key, 0) + 1
         for kw in ('while', 'for', 'try', 'finally', 'except', 'break', 'continue', 'return', 'raise', 'with', 'else', 'def', 'nonlocal', 'del'):
             if re.search(r'\b%s\b' % kw, src):
                 hist[kw] = hist.get(kw, 0) + 1
@@ -2660,6 +2838,8 @@ def check_property(run, kind, generate):
                 comp_stats['runs'] = comp_stats.get('runs', 0) + 1
             if not d.on_graph:
                 off_graph += 1
+            if sname == 'composite-target':
+                sub_stats['runs'] = sub_stats.get('runs', 0) + 1
             fs = liveness_failures(an, fi, d) if kind == 'lv' else reachdef_failures(an, fi, d)
             if kind == 'lv':
                 fs = fs + nested_liveness_failures(an, d, nested_stats)
@@ -2675,6 +2855,8 @@ def check_property(run, kind, generate):
     run.extra['runs_outside_the_property'] = skipped
     run.extra['runs_off_the_reported_graph'] = off_graph
     run.extra['construct_histogram'] = hist
+    if kind == 'rd':
+        run.extra['composite_target_programs'] = sub_stats
     if kind == 'lv':
         run.extra['nested_function_activations_judged'] = nested_stats
         run.extra['comprehension_programs'] = comp_stats
